@@ -181,7 +181,9 @@ func (k Keeper) AddDeposit(ctx sdk.Context, receiverAddr, senderAddr sdk.AccAddr
 			stream, _ = k.GetStream(ctx, receiverAddr, senderAddr)
 		}
 
-		// stream expired or new. Calculate from now
+		// stream expired or new. Calculate from now. Nothing flowed while the stream was
+		// unfunded, so the flow (re)starts now as well
+		stream.LastOutflowTime = nowTime
 		depositZeroTime = nowTime.Add(time.Second * time.Duration(durationExtension))
 	} else {
 		// stream not expired. Add to current deposit zero time
